@@ -11,6 +11,7 @@ incl. root-level dot files; all queries in the three spellings; structurally def
 import bz2
 import gzip
 import io
+import os
 import itertools
 import lzma
 import random
@@ -237,6 +238,9 @@ def verify_member_names(ctx):
 def run_deductive(ctx):
     verify_member_names(ctx)
     from props import C06 as _c06
+    # the parts of a package are read through ArMember objects: their read / seek / tell / readline(s) == io.BytesIO over the
+    # member's bytes, for every position the shared file object may be left at by reads of OTHER members (contracts of C06)
+    _c06.verify_archive_layer(ctx, members_only=True)
     _vals.REC_CLASSES["ArMember"] = _c06.MEMBER_FIELDS
     sl = SpecLib()
     w = World(sl)
@@ -294,7 +298,8 @@ def run(ctx):
               "5 x 5 compressions of control and data part x member orders x seeded subsets of 5 maintainer scripts and 6 data files "
               "(binary content, names with spaces, root-level dot files, nested dot files, non-ASCII content); every query under "
               "'name', './name', '/name'; defective member sets (missing debian-binary / control / data, two candidates for a part "
-              "incl. uncompressed + compressed); non-trivial = distinct (compressions, order, file set)", "25 compression pairs")
+              "incl. uncompressed + compressed); packages with 150-300 kB random members, control and data queries interleaved, opened by "
+              "file object and by file name; non-trivial = distinct (compressions, order, file set)", "25 compression pairs")
     reps = 2 if ctx.tier == "quick" else 12
     previous = None
     for cext, dext in itertools.product(EXTS, EXTS):
@@ -367,6 +372,47 @@ def run(ctx):
                     t.failed("an earlier package answers differently after another package was read", package=pdesc, other=desc)
                     break
             previous = (deb, fields, scripts, md5, list(files), desc)
+        if t.fail:
+            break
+    # large incompressible members read through ONE shared file object, control and data queries interleaved (the decompressors
+    # pull their input chunk-wise, so the reads of the two parts alternate on the underlying file)
+    for dext in ([] if t.fail else EXTS):
+        cexts = [rng.choice(EXTS)] if ctx.tier == "quick" else EXTS
+        for cext in cexts:
+            big1, big2 = rng.randbytes(300000), rng.randbytes(200000)
+            files = [("usr/lib/big1.bin", big1), ("usr/share/small", b"s\n"), ("usr/lib/big2.bin", big2)]
+            control = b"Package: big\nVersion: 1\n"
+            cfiles = [("control", control), ("postinst", rng.randbytes(150000)), ("md5sums", b"")]
+            desc = dict(control_ext=cext, data_ext=dext, files=[n for n, _ in files], note="large random members, interleaved queries")
+            raw = ar([("debian-binary", b"2.0\n"), ("control.tar" + cext, tar(cfiles, cext)), ("data.tar" + dext, tar(files, dext))])
+            for mode in ("fileobj", "filename"):
+                tmpname = None
+                try:
+                    if mode == "fileobj":
+                        deb = real.DebFile(fileobj=io.BytesIO(raw))
+                    else:
+                        import tempfile
+                        fd, tmpname = tempfile.mkstemp(suffix=".deb")
+                        os.write(fd, raw)
+                        os.close(fd)
+                        deb = real.DebFile(filename=tmpname)
+                    got = [deb.data.get_content("usr/lib/big1.bin"), deb.control.get_content("control"),
+                           deb.data.get_content("./usr/lib/big2.bin"), deb.control.get_content("postinst"),
+                           deb.data.get_content("/usr/share/small"), deb.data.get_file("usr/lib/big1.bin").read()]
+                    deb.close()
+                except Exception as e:
+                    t.failed("interleaved queries on a package with large members raised %r" % (e,), package=desc, opened_by=mode)
+                    break
+                finally:
+                    if tmpname:
+                        os.unlink(tmpname)
+                t.case(key=("big", cext, dext, mode))
+                if got != [big1, control, big2, cfiles[1][1], b"s\n", big1]:
+                    t.failed("interleaved queries on a package with large members return other bytes than were packed", package=desc,
+                             opened_by=mode, equal=[a == b for a, b in zip(got, [big1, control, big2, cfiles[1][1], b"s\n", big1])])
+                    break
+            if t.fail:
+                break
         if t.fail:
             break
     # malformed packages
